@@ -5,6 +5,7 @@
 //!
 //! A reply line is `<observable>` optionally followed by `\t#FAIL:<key>:<explanation>` when the
 //! implementation-side property oracle fails for that request.
+mod c12;
 mod c19;
 mod rng;
 
@@ -18,6 +19,7 @@ fn run_line(prop: &str, line: &str) -> String {
   }
   let args = &toks[1..];
   let r = std::panic::catch_unwind(|| match prop {
+    "C12" => c12::run(args),
     "C19" => c19::run(args),
     _ => "bad-request".to_string(),
   });
@@ -42,6 +44,7 @@ fn main() {
       let seed: u64 = args.get(4).and_then(|s| s.parse().ok()).unwrap_or(0);
       let thorough = tier == "thorough";
       match prop {
+        "C12" => c12::gen(thorough, seed, &mut out),
         "C19" => c19::gen(thorough, seed, &mut out),
         _ => {
           eprintln!("unknown property");
